@@ -8,7 +8,7 @@ for f in ("patch.diff", "demo.diff", "notes.md"):
     shutil.copy(f"/tmp/seed_{tid}/{f}", d)
 parts = dict(x.strip().split(": ") for x in confirm.split("CONFIRM " + tid + ": ")[1].split(" | "))
 meta = {"id": f"{tid}-{prop}", "property": prop, "round": int(rnd), "what": what, "needs_to_manifest": needs,
-        "origin": "independent sub-agent (third round: given the property text and one-line ideas of the two earlier changes to avoid; asked for a change outside the obvious function)",
+        "origin": f"independent sub-agent (round {rnd}: given the property text and one-line ideas of the earlier changes to avoid, plus a hint on the kind of change (outside the obvious function / scale-dependent / unusual-but-legal path / reporting and emission / two cooperating sites))",
         "confirmed": {"ran": f"lib/confirm_seed.sh {tid} {filt} -p {pkg} (scratch worktree /tmp/wt_{tid}, own target dir)",
                       "suite_with_patch": parts["suite with patch"], "demo_with_patch": parts["demo with patch"], "demo_without_patch": parts["demo without patch"]}}
 json.dump(meta, open(d + "/meta.json", "w"), indent=1)
